@@ -102,6 +102,20 @@ def build_harness(bins):
     return {b: os.path.join(HARNESS_TARGET, "debug", b) for b in bins}
 
 
+def build_shim():
+    """gcc build of the LD_PRELOAD shim into .cache/copia_shim.so"""
+    with _Lock("build-shim"):
+        out = os.path.join(CACHE, "copia_shim.so")
+        src = os.path.join(VERIF, "shim", "copia_shim.c")
+        if not os.path.exists(out) or os.path.getmtime(out) < os.path.getmtime(src):
+            p = subprocess.run(["gcc", "-O2", "-fPIC", "-shared", "-o", out, src, "-ldl", "-lpthread"],
+                               stdout=subprocess.PIPE, stderr=subprocess.STDOUT, text=True)
+            if p.returncode != 0:
+                log(p.stdout)
+                raise ToolError("shim build failed")
+    return out
+
+
 _PAYLOAD = re.compile(r'^<<"([A-Z]+)", "(.*)">>$')
 
 
